@@ -19,7 +19,7 @@ RULE = (
     'subtracted from every step, first frame kept).  Non-trivial = at least two species, reference set a strict '
     'subset of the atoms; distinct = SHA-1 of (walk, species, argument form).'
 )
-RULE += ' Added in rounds 6-10: a further drift() query for another reference set on the same trajectory; nearly static crystals with a common drift of 1e-10..1e-8 per frame; collections with repeated names; a non-reference atom with NaN coordinates. Round 12: "none" also spelled as None / empty tuple / empty list / empty string arguments (reference = every atom, or a loud refusal).'
+RULE += ' Added in rounds 6-10: a further drift() query for another reference set on the same trajectory; nearly static crystals with a common drift of 1e-10..1e-8 per frame; collections with repeated names; a non-reference atom with NaN coordinates. Round 12: "none" also spelled as None / empty tuple / empty list / empty string arguments (reference = every atom, or a loud refusal). Round 13: a hop of ~0.4 cell against a reference step of -0.15 (relative step beyond half a cell), examined on the returned object before any representation switch.'
 ASSUMPTIONS = [
     'steps (including the injected drift) stay below 0.45 cell so that minimum-image steps are the true steps',
     'tolerances: residual drift 1e-12, positions 1e-9 (circular)',
@@ -184,6 +184,31 @@ def run_unit(unit, rng, ctx):
         dw = st_n[:, ref].mean(axis=1, keepdims=True)
         ctx.check(dn.shape == dw.shape and bool(np.all(np.isfinite(dn))) and float(np.abs(dn - dw).max()) <= 1e-9, f'{what} [non-reference atom {a_nan} has NaN coordinates in frames {t_nan}-{t_nan + 1}]: drift() of the reference species is not their mean displacement (finite: {bool(np.all(np.isfinite(dn)))})', {'names': names, 'ref': ref})
         ctx.count('cases_with_a_lost_non_reference_atom(NaN)')
+    # a step of more than half a cell RELATIVE to the reference species (a hop of +0.40 while the reference moves
+    # -0.15; every laboratory-frame step stays below half a cell): the corrected step is +0.55, not its periodic
+    # image -0.45.  Only the object as returned is examined, before anything switches its representation
+    # (a displacement beyond half a cell cannot survive a round trip through wrapped positions - C01).
+    if unit['i'] % 7 == 5 and (~ref).any() and ref.any() and T >= 3:
+        Ub = U.copy()
+        t_h, c_h = int(rng.integers(1, T)), int(rng.integers(3))
+        a_h = int(rng.choice(np.nonzero(~ref)[0]))
+        st_ = np.diff(Ub, axis=0, prepend=Ub[:1])
+        st_[t_h, :, c_h] = rng.uniform(-0.02, 0.02, size=N)
+        st_[t_h, ref, c_h] += -0.15
+        st_[t_h, a_h, c_h] = float(rng.uniform(0.38, 0.45))
+        sgn = float(rng.choice([-1.0, 1.0]))
+        st_[t_h, :, c_h] *= sgn
+        Ub = Ub[:1] + np.cumsum(st_, axis=0)
+        trb = gen.make_trajectory(m, sp, Ub - np.floor(Ub), time_step=dt, metadata=dict(meta), presentation='plain')
+        corr_b = trb.apply_drift_correction(**kwargs)
+        got_b = np.asarray(corr_b.displacements) if corr_b.coords_are_displacement else None
+        drift_b = st_[:, ref].mean(axis=1, keepdims=True)
+        if got_b is not None:
+            dev_b = float(np.abs(got_b - (st_ - drift_b)).max())
+            ctx.check(dev_b <= 1e-9, f'{what} [atom {a_h} hops {st_[t_h, a_h, c_h]:+.2f} while the reference moves {drift_b[t_h, 0, c_h]:+.2f} in frame {t_h}]: corrected displacements differ from (steps - reference drift) by {dev_b:.3f} (a whole lattice vector = periodic image of the step)', {'names': names, 'ref': ref})
+            ctx.count('relative_steps_beyond_half_a_cell')
+        else:
+            ctx.count('relative_step_case_not_examined(result stored as positions)')
     cd0 = run(U, '')
     # injected rigid, time-dependent translation of all atoms
     gs = rng.uniform(-0.2, 0.2, size=(T, 1, 3))
